@@ -234,7 +234,7 @@ func runC11(c *ctx) {
 		n = 120000
 	}
 	for i := 0; i < n; i++ {
-		f := c02flags{dyn: !r.Chance(1, 12), res: false, pres: r.Chance(1, 10), same: !r.Chance(1, 15),
+		f := c02flags{aff: r.Chance(1, 3), dyn: !r.Chance(1, 12), res: false, pres: r.Chance(1, 10), same: !r.Chance(1, 15),
 			minfree: r.Range(0, 6), block: r.Range(0, 8), iw: gen.Pick(r, []int{1, 1, 100, 128})}
 		naming := r.Intn(3)
 		switch r.Intn(3) {
